@@ -75,6 +75,8 @@ func init() {
 			return k == "clip.LineString" || k == "clip.MultiLineString" || k == "clip.MultiPoint" || k == "clip.Geometry"
 		}, floor: 4}),
 		ruleMemberLoops(func(k string) bool { return k == "clip.line" || k == "clip.MultiLineString" || k == "clip.MultiPoint" }, 2, 1),
+		ruleRegionCodes(clipRegionFuncs, true),
+		ruleOpenFlagFlow,
 	)
 
 	register("C08",
@@ -83,6 +85,7 @@ func init() {
 			post: rulePost("clip", append(typedNilPost("clip.Geometry"), emptyInNilOut("clip.Geometry")))}),
 		ruleMemberLoops(inPkgs("clip."), 6, 1),
 		ruleRunOnce(inPkgs("clip."), 10),
+		ruleRegionCodes(clipRegionFuncs, true),
 	)
 
 	register("C10",
@@ -131,6 +134,8 @@ func init() {
 		"Structural necessary conditions of smart clipping: no certain fault for any 2-d kind x degenerate shape x both orientations (abstract interpretation); member loops. Region equality is NOT decided.",
 		ruleShapeFaults(shapeConfig{label: "smartclip", keep: inPkgs("clip/smartclip."), floor: 4}),
 		ruleMemberLoops(inPkgs("clip/smartclip."), 10, 0),
+		ruleRegionCodes(append(append([]regionFunc(nil), clipRegionFuncs...), regionFunc{"clip/smartclip", "bitCodeOpen", true}), false),
+		ruleCornerTables,
 	)
 
 	register("C17",
@@ -311,3 +316,5 @@ func observerEntries(c *Ctx) []effectEntry {
 	}
 	return out
 }
+
+var clipRegionFuncs = []regionFunc{{"clip", "bitCode", false}, {"clip", "bitCodeOpen", true}}
